@@ -161,3 +161,15 @@ Proof.
   - destruct typed; [|destruct I].
     apply in_app_or in I as [I|I]; apply in_map_iff in I as [x [I _]]; discriminate.
 Qed.
+
+(* ---- the base derived for a function memoized without name= (full_name, generated from core.py):
+        within one module, functions with different qualified names get different bases, hence
+        (key_base_injective) never share an entry ---- *)
+Theorem full_name_injective m q1 q2 : full_name m q1 = full_name m q2 -> q1 = q2.
+Proof. unfold full_name. intros E. apply app_inv_head in E. apply app_inv_head in E. exact E. Qed.
+
+Theorem derived_names_never_share m q1 q2 a1 kw1 a2 kw2 typed ig :
+  args_to_key [EStr (full_name m q1)] a1 kw1 typed ig = args_to_key [EStr (full_name m q2)] a2 kw2 typed ig -> q1 = q2.
+Proof.
+  intros E. apply key_base_injective in E. inversion E as [E']. apply (full_name_injective m), E'.
+Qed.
